@@ -454,6 +454,15 @@ def _native_table(task, rec):
                     rec.violation('C10|draw-table-variable-order|native-support', f'{nm}:{typ} outside [0,1]: {col}', case)
 
 
+def on_abort(task, info):
+    """The refusal cases hand the engine formulas it is expected to refuse; the pre-built engine occasionally takes the whole
+    process down instead of raising: no number was returned; counted, not a violation.  Elsewhere a dying worker is a
+    harness error."""
+    if isinstance(task, dict) and task.get('part') == 'refusals':
+        return {}
+    return None
+
+
 def _refusals(rec):
     from biogeme.exceptions import BiogemeError
     import numpy as np
